@@ -221,12 +221,21 @@ def run(ctx):
       nc = min(nc, data['n_classes'] - 1)
     kw = dict(init=init if init != 'array' else fits.grid(rng.standard_normal((nc, d)), 4), n_components=nc, random_state=2)
     cap = {}
+    if kind == 'nca' and i % 8 == 0:
+      # a class with a single member: that sample has no same-class neighbour (its own term is 0), but it is a
+      # candidate neighbour of every other sample
+      X = np.vstack([X, X.mean(axis=0) + fits.grid(rng.standard_normal(d), 4)])
+      y = np.append(y, y.max() + 1)
+      ctx.hist('nca.singleton_class', True)
     if kind in ('nca', 'mlkr'):
       mod = nca_mod if kind == 'nca' else mlkr_mod
       orig = mod.minimize
 
       def spy(*a, **k):
         cap['x0'] = np.array(k['x0'] if 'x0' in k else a[1])
+        fun = k['fun'] if 'fun' in k else a[0]
+        fargs = k.get('args', a[2] if len(a) > 2 else ())
+        cap['f0'] = fun(cap['x0'].copy(), *fargs)          # what the optimiser is given, at the starting point
         r = orig(*a, **k)
         cap['x'] = np.array(r.x)
         return r
@@ -246,6 +255,20 @@ def run(ctx):
       finally:
         mod.minimize = orig
       L0 = cap['x0'].reshape(-1, d)
+      v0 = float(cap['f0'][0])
+      g0 = np.asarray(cap['f0'][1], dtype=float).reshape(L0.shape)
+      ctx.count('optimiser_value', 1)
+      if not abs(abs(v0) - abs(f(L0))) <= 1e-8 * (1 + abs(f(L0))):
+        ctx.fail_input('objective', kind + ': the value handed to the optimiser during fit is not the documented objective of the training set',
+                       dict(kind=kind, init=init, X=X.tolist(), y=np.asarray(y if kind == 'nca' else data['yreg']).tolist()), observed=[v0, f(L0)])
+      else:
+        E = fits.grid(rng.standard_normal(L0.shape), 4)
+        h = 1e-5
+        num = (f(L0 + h * E) - f(L0 - h * E)) / (2 * h)
+        ana = float(np.sum(g0 * E)) * (1.0 if v0 * f(L0) >= 0 else -1.0)
+        if not abs(num - ana) <= 1e-4 * (1 + abs(num) + float(np.abs(g0).max())):
+          ctx.fail_input('objective', kind + ': the gradient handed to the optimiser during fit is not the derivative of the documented objective of the training set',
+                         dict(kind=kind, init=init, X=X.tolist()), observed=[ana, num])
       ctx.count('not_worse_than_init', 1)
       if f(e.components_) > f(L0) + 1e-9 * (1 + abs(f(L0))):
         ctx.fail_input('not_worse_than_init', kind + ': the returned transformation has a worse documented objective than the initialisation',
